@@ -179,3 +179,436 @@ Proof.
     all: repeat match goal with |- context [if ?b then _ else _] => destruct b end;
          try destruct provs; cbn; assumption.
 Qed.
+
+(* ---- respond ---- *)
+
+Definition req_core (s s1 : State) : Prop :=
+  reqs s1 = reqs s /\ resps s1 = resps s /\ ctxs s1 = ctxs s /\ expq_h s1 = expq_h s
+  /\ owner_of s1 = owner_of s.
+
+Lemma settle_core cfg s r q rc0 out ov s1 :
+  resp_settle cfg s r q rc0 out ov s1 ->
+  req_core s s1 /\ (forall k, has k (binds s) = true -> has k (binds s1) = true).
+Proof.
+  intros [[_ (sa & Es & Er)]|[_ Ea]].
+  - apply slash_shape in Es. destruct Es as (q' & rc & b & amt & b2 & _ & _ & _ & _ & _ & _ & _ & _ & _ & _ & _ & ->).
+    apply refund_shape in Er. destruct Er as (_ & _ & ->). unfold req_core. sproj.
+    repeat split. intros k Hk. now apply has_set_mono.
+  - apply add_earned_shape in Ea. destruct Ea as (o & s0 & Et & _ & _ & ->). cbv zeta.
+    unfold req_core. sproj. repeat split. auto.
+Qed.
+
+Lemma snd_complete_batch s c rc : snd (complete_batch s c rc) = setc_bdone rc true.
+Proof. reflexivity. Qed.
+
+Lemma resp_tail_req s1 r who rc0 code out c rc :
+  let s' := resp_finish (resp_mid s1 r who rc0 code out) c rc in
+  let rc1 := setc_bresp rc (c_bresp rc + 1) in
+  reqs s' = reqs (deactivate s1 r)
+  /\ resps s' = set r (mkResp who (c_cons rc0) code out) (resps s1)
+  /\ expq_h s' = expq_h s1 /\ owner_of s' = owner_of s1 /\ binds s' = binds s1
+  /\ ctxs s' = set c (if c_bresp rc1 =? c_breq rc1 then setc_bdone rc1 true else rc1) (ctxs s1).
+Proof.
+  cbv zeta. unfold resp_finish.
+  set (sm := resp_mid s1 r who rc0 code out).
+  assert (Hm : reqs sm = reqs (deactivate s1 r)
+               /\ resps sm = set r (mkResp who (c_cons rc0) code out) (resps s1)
+               /\ expq_h sm = expq_h s1 /\ owner_of sm = owner_of s1 /\ binds sm = binds s1
+               /\ ctxs sm = ctxs s1).
+  { unfold sm, resp_mid. sproj. unfold deactivate. sproj.
+    destruct (get r (reqs s1)); sproj; repeat split. }
+  destruct Hm as (M1 & M2 & M3 & M4 & M5 & M6).
+  destruct (c_bresp (setc_bresp rc (c_bresp rc + 1)) =? c_breq (setc_bresp rc (c_bresp rc + 1))).
+  - pose proof (complete_batch_frame sm c (setc_bresp rc (c_bresp rc + 1))) as F. cbv zeta in F.
+    destruct F as (F1 & F2 & _ & _ & _ & _ & F7 & F8 & _ & F10 & _ & _ & _ & F14 & _).
+    sproj. rewrite F1, F2, F7, F8, F10, F14, snd_complete_batch. repeat split; congruence.
+  - sproj. repeat split; congruence.
+Qed.
+
+Lemma msum_active_deact s c r q :
+  get r (reqs s) = Some q -> r_active q = true ->
+  msum (active_in c) (set r (deact q) (reqs s))
+  = msum (active_in c) (reqs s) - (if eqb (rid_ctx r) c then 1 else 0).
+Proof.
+  intros G Ha. rewrite msum_set. unfold fget. rewrite G. unfold active_in. cbn [r_active deact setr_active].
+  rewrite Ha. destruct (eqb (rid_ctx r) c); cbn [andb]; lia.
+Qed.
+
+Lemma I_req_respond cfg s r who code out ov ok s' :
+  wf_cfg cfg -> Inv cfg s -> h_respond cfg s r who code out ov ok = Ok s' -> I_req s'.
+Proof.
+  intros Hcfg Hinv H. apply respond_inv in H.
+  destruct H as (q & rc0 & s1 & rc & _ & Hq & Hrc0 & Hwho & Hact & Hset & Hrc & ->).
+  destruct (settle_core _ _ _ _ _ _ _ _ Hset) as ((C1 & C2 & C3 & C4 & C5) & Cb).
+  pose proof (resp_tail_req s1 r who rc0 code out (rid_ctx r) rc) as T. cbv zeta in T.
+  destruct T as (T1 & T2 & T3 & T4 & T5 & T6).
+  assert (Erc : rc = rc0).
+  { unfold resp_mid in Hrc. sproj. unfold deactivate in Hrc. sproj.
+    destruct (get r (reqs s1)); sproj; rewrite C3 in Hrc; congruence. }
+  subst rc0.
+  set (c := rid_ctx r) in *.
+  set (rc1 := setc_bresp rc (c_bresp rc + 1)) in *.
+  set (rcF := if c_bresp rc1 =? c_breq rc1 then setc_bdone rc1 true else rc1) in *.
+  destruct (inv_req _ _ Hinv) as (R1 & R2 & R3).
+  pose proof (inv_wf _ _ Hinv) as Hwf. assert (Hwr : wf (reqs s)) by apply Hwf.
+  assert (Hreqs : reqs (resp_finish (resp_mid s1 r who rc code out) c rc) = set r (deact q) (reqs s)).
+  { rewrite T1, deactivate_reqs, C1, Hq. reflexivity. }
+  pose proof (get_In _ _ _ Hq) as Hqin.
+  destruct (R1 _ _ Hqin) as (rc' & G1 & Q2 & Q3 & Q4 & Q5 & Q6 & Q7 & Q8 & Q9).
+  fold c in G1, Q3. assert (rc' = rc) by congruence. subst rc'.
+  assert (HrcF : c_counter rcF = c_counter rc /\ c_breq rcF = c_breq rc /\ c_svc rcF = c_svc rc
+                 /\ c_super rcF = c_super rc /\ c_bresp rcF = c_bresp rc + 1).
+  { unfold rcF, rc1. destruct (_ =? _); repeat split. }
+  destruct HrcF as (F1 & F2 & F3 & F4 & F5).
+  destruct (R3 _ _ Hrc0) as (B1 & B2 & B3 & B4).
+  assert (Hexp : has c (expq_h s) = true) by (unfold has; now rewrite Q3).
+  rewrite Hexp in B2. cbn [andb] in B2.
+  (* the answered request was active, so the batch is not completed and has room *)
+  assert (Hpos : 1 <= msum (active_in c) (reqs s)).
+  { assert (E : active_in c r q = fget (active_in c) r (reqs s)) by (unfold fget; now rewrite Hq).
+    assert (L : fget (active_in c) r (reqs s) <= msum (active_in c) (reqs s)).
+    { apply msum_ge_fget. intros k v _. unfold active_in. destruct (_ && _); lia. }
+    rewrite <- E in L. unfold active_in in L. unfold c in L at 1. rewrite eqb_refl, Hact in L. cbn [andb] in L. exact L. }
+  assert (Hnd : c_bdone rc = false).
+  { destruct (c_bdone rc); [|reflexivity]. cbn [negb] in B2. lia. }
+  rewrite Hnd in B2. cbn [negb] in B2.
+  unfold I_req. rewrite Hreqs, T2, T3, T4, T5, T6, C2, C3, C4, C5.
+  split; [|split].
+  - intros r' q' Hin. apply In_set_inv in Hin; [|assumption].
+    destruct Hin as [[-> ->]|[Hne Hin]].
+    + exists rcF. fold c. rewrite get_set_eq. cbn [deact setr_active r_exp r_fee r_prov].
+      rewrite F1, F2, F3, F4. repeat split; auto; lia.
+    + destruct (R1 _ _ Hin) as (rc' & A1 & A2 & A3 & A4 & A5 & A6 & A7 & A8 & A9).
+      rewrite get_set. destruct (eqb_spec (rid_ctx r') c) as [Ec|Hnc].
+      * rewrite Ec in A1. assert (rc' = rc) by congruence. subst rc'.
+        exists rcF. rewrite F1, F2, F3, F4. repeat split; auto; lia.
+      * exists rc'. repeat split; auto; lia.
+  - intros r' x Hin. apply In_set_inv in Hin; [|apply Hwf].
+    destruct Hin as [[-> ->]|[Hne Hin]].
+    + exists (deact q). rewrite get_set_eq. split; reflexivity.
+    + destruct (R2 _ _ Hin) as (q' & G' & I'). exists q'. rewrite get_set_neq by assumption. auto.
+  - intros c' rcx Gx. rewrite get_set in Gx. rewrite (msum_active_deact s c' r q Hq Hact). fold c.
+    destruct (eqb_spec c' c) as [->|Hnc].
+    + injection Gx as <-. rewrite eqb_refl, Hexp. cbn [andb].
+      unfold rcF, rc1. destruct (c_bresp (setc_bresp rc (c_bresp rc + 1)) =? c_breq (setc_bresp rc (c_bresp rc + 1))) eqn:Eq;
+        cbn [c_bresp c_breq c_bdone setc_bresp setc_bdone negb] in *; b2p.
+      * repeat split; try lia; try discriminate; intros; try discriminate; try lia.
+      * rewrite Hnd. cbn [negb]. repeat split; try lia; try discriminate; intros; try discriminate; try lia.
+    + destruct (eqb_spec c c') as [E|_]; [congruence|]. rewrite Z.sub_0_r. apply (R3 _ _ Gx).
+Qed.
+
+Theorem I_req_msg cfg s o s' :
+  wf_cfg cfg -> Inv cfg s -> wf_op s o -> (forall dt, o <> OEndBlock dt) ->
+  handle cfg s o = Ok s' -> I_req s'.
+Proof.
+  intros Hcfg Hinv Hop Hne H.
+  destruct o;
+    try (destruct (req_msg_simple _ _ _ _ H I) as (E1 & E2 & E3 & E4 & E5 & E6);
+         exact (I_req_frame _ _ E1 E2 E3 E4 E5 E6 (inv_req _ _ Hinv)));
+    try (exact (I_req_ctx_ops _ _ _ _ Hcfg Hinv Hop H I)).
+  - cbn [handle] in H. eapply I_req_respond; eauto.
+  - exfalso. eapply Hne. reflexivity.
+Qed.
+
+(* ---- EndBlock: expiry ---- *)
+
+Lemma has_binds_slash cfg s r s1 k :
+  slash cfg s r = Ok s1 -> has k (binds s) = true -> has k (binds s1) = true.
+Proof.
+  intros Es Hk. apply slash_shape in Es.
+  destruct Es as (q' & rc & b & amt & b2 & _ & _ & _ & _ & _ & _ & _ & _ & _ & _ & _ & ->).
+  sproj. now apply has_set_mono.
+Qed.
+
+Lemma has_binds_expire_req cfg s r k :
+  has k (binds s) = true -> has k (binds (expire_req cfg s r)) = true.
+Proof.
+  intros Hk. unfold expire_req.
+  destruct (get r (reqs s)) as [q|]; [|assumption].
+  destruct (get (rid_ctx r) (ctxs s)) as [rc|]; [|assumption].
+  rewrite deactivate_other. sproj.
+  destruct (c_super rc); [assumption|].
+  assert (Hsa : has k (binds (match slash cfg s r with Ok x => x | _ => s end)) = true).
+  { destruct (slash cfg s r) eqn:Es; try assumption. eapply has_binds_slash; eauto. }
+  destruct (refund_fee _ r (c_cons rc) (r_fee q)) eqn:Er; [|assumption].
+  apply refund_shape in Er. destruct Er as (_ & _ & ->). sproj. assumption.
+Qed.
+
+Lemma has_binds_fold_expire cfg l s k :
+  has k (binds s) = true -> has k (binds (fold_left (expire_req cfg) l s)) = true.
+Proof.
+  revert s. induction l as [|a l IH]; intros s Hk; cbn [fold_left]; [assumption|].
+  apply IH. now apply has_binds_expire_req.
+Qed.
+
+Lemma fold_expire_msum_other cfg l s c c' :
+  wf (reqs s) -> c' <> c -> (forall r, In r l -> rid_ctx r = c) ->
+  msum (active_in c') (reqs (fold_left (expire_req cfg) l s)) = msum (active_in c') (reqs s).
+Proof.
+  revert s. induction l as [|a l IH]; intros s Hw Hne Hl; cbn [fold_left]; [reflexivity|].
+  assert (Hw1 : wf (reqs (expire_req cfg s a))).
+  { rewrite expire_req_reqs. destruct (get a (reqs s)); [|assumption].
+    destruct (get (rid_ctx a) (ctxs s)); [now apply wf_set|assumption]. }
+  rewrite IH; [|assumption|assumption|intros r Hr; apply Hl; now right].
+  rewrite expire_req_reqs. destruct (get a (reqs s)) as [q|] eqn:G; [|reflexivity].
+  destruct (get (rid_ctx a) (ctxs s)); [|reflexivity].
+  rewrite msum_set. unfold fget. rewrite G. unfold active_in.
+  rewrite (Hl a (or_introl eq_refl)). destruct (eqb_spec c c'); [congruence|]. cbn [andb]. lia.
+Qed.
+
+Lemma I_req_expire_one cfg s c :
+  wf_cfg cfg -> Inv cfg s -> In (height s, c) (expq s) -> height s < HEIGHT_BOUND ->
+  I_req (expire_one cfg s c).
+Proof.
+  intros Hcfg Hinv Hdue Hh. destruct (due_ctx _ _ _ Hinv Hdue) as (rc & Grc & Gexp).
+  pose proof (expire_one_settled cfg s c rc Hinv Grc Gexp) as HS. cbv zeta in HS.
+  destruct (inv_req _ _ Hinv) as (R1 & R2 & R3).
+  pose proof (inv_wf _ _ Hinv) as Hwf. assert (Hwr : wf (reqs s)) by apply Hwf.
+  assert (Hwp : wf (resps s)) by apply Hwf. assert (Hwc : wf (ctxs s)) by apply Hwf.
+  assert (Hwe : wf (expq_h s)) by apply Hwf.
+  (* facts about the settled state that expire_one_settled does not give *)
+  assert (HX : let p := (if c_bdone rc then (s, rc)
+                 else complete_batch (fold_left (expire_req cfg) (active_rids s c (c_counter rc)) s) c rc) in
+      resps (fst p) = resps s /\ expq_h (fst p) = expq_h s /\ owner_of (fst p) = owner_of s
+      /\ (forall k, has k (binds s) = true -> has k (binds (fst p)) = true)
+      /\ (forall r, rid_ctx r <> c -> get r (reqs (fst p)) = get r (reqs s))
+      /\ (forall c', c' <> c -> msum (active_in c') (reqs (fst p)) = msum (active_in c') (reqs s))
+      /\ c_bdone (snd p) = true /\ c_counter (snd p) = c_counter rc /\ c_bresp (snd p) = c_bresp rc
+      /\ c_breq (snd p) = c_breq rc /\ wf (reqs (fst p))).
+  { cbv zeta. destruct (c_bdone rc) eqn:Ebd; cbn [fst snd]; [repeat split; auto|].
+    set (l := active_rids s c (c_counter rc)). set (sf := fold_left (expire_req cfg) l s).
+    assert (Hlc : forall r, In r l -> rid_ctx r = c).
+    { intros r Hr. apply In_active_rids in Hr; [|assumption]. destruct Hr as (? & _ & Hc & _). exact Hc. }
+    pose proof (complete_batch_frame sf c rc) as F. cbv zeta in F.
+    destruct F as (F1 & F2 & _ & _ & _ & _ & _ & F8 & _ & F10 & _ & _ & _ & F14 & _).
+    pose proof (fold_expire_core cfg l s) as C. cbv zeta in C. fold sf in C.
+    destruct C as (C1 & C2 & _ & _ & _ & C6 & _ & _ & C9 & _).
+    destruct (fold_expire_reqs cfg l s Hwr) as (Hwsf & Hg).
+    { intros r Hr. rewrite (Hlc r Hr). eauto. }
+    fold sf in Hg, Hwsf.
+    rewrite F1, F2, F8, F10, F14. repeat split; try congruence.
+    - intros k Hk. now apply has_binds_fold_expire.
+    - intros r Hr. rewrite Hg. destruct (mem r l) eqn:M; [|reflexivity].
+      apply mem_In in M. apply Hlc in M. contradiction.
+    - intros c' Hc'. now apply (fold_expire_msum_other cfg l s c c'). }
+  cbv zeta in HX.
+  unfold expire_one, ctx_or_zero. rewrite Grc.
+  destruct (if c_bdone rc then (s, rc) else complete_batch _ c rc) as [s1 rc1] eqn:Epair.
+  cbn [fst snd] in HS, HX.
+  destruct HS as (_ & _ & Hctx1 & Hinact & Hkeys).
+  destruct HX as (X1 & X2 & X3 & X4 & X5 & X6 & X7 & X8 & X9 & X10 & Hw1).
+  set (n := c_counter rc1).
+  match goal with |- I_req (clean_batch ?x c n) => set (s3 := x) end.
+  assert (H3 : reqs s3 = reqs s1 /\ resps s3 = resps s /\ expq_h s3 = del c (expq_h s)
+               /\ owner_of s3 = owner_of s /\ binds s3 = binds s1
+               /\ (ctxs s3 = set c rc1 (ctxs s) \/ ctxs s3 = del c (set c rc1 (ctxs s)))).
+  { unfold s3. destruct (c_state rc1); [destruct (c_rep rc1 && _)| |]; sproj;
+      rewrite ?X1, ?X2, ?X3, ?Hctx1; repeat split; auto. }
+  destruct H3 as (H31 & H32 & H33 & H34 & H35 & H36).
+  destruct (clean_batch_fields s3 c n) as (Cr & Cp & Cs). cbv zeta in Cr, Cp, Cs.
+  set (s' := clean_batch s3 c n) in *.
+  assert (E4 : expq_h s' = del c (expq_h s)) by (rewrite Cs; sproj; exact H33).
+  assert (E5 : owner_of s' = owner_of s) by (rewrite Cs; sproj; exact H34).
+  assert (E6 : binds s' = binds s1) by (rewrite Cs; sproj; exact H35).
+  assert (E7 : ctxs s' = ctxs s3) by (rewrite Cs; reflexivity).
+  (* membership in the cleaned batch *)
+  assert (Hbatch : forall r, In r (keys (reqs s)) -> rid_ctx r = c -> In r (batch_rids s3 c n)).
+  { intros r Hk Hc. apply In_batch_rids. rewrite H31. split; [|split; [assumption|]].
+    - apply in_keys_get in Hk. destruct Hk as (q & G).
+      destruct (get r (reqs s1)) eqn:G1; [eapply get_Some_in; eauto|].
+      apply Hkeys in G1. congruence.
+    - apply in_keys_get in Hk. destruct Hk as (q & G). apply get_In in G.
+      destruct (R1 _ _ G) as (rc' & A1 & A2 & _). rewrite Hc in A1.
+      assert (rc' = rc) by congruence. subst rc'. unfold n. congruence. }
+  assert (Hget : forall r q, get r (reqs s') = Some q -> rid_ctx r <> c /\ get r (reqs s) = Some q).
+  { intros r q G. rewrite Cr, H31, get_fold_del in G by assumption.
+    destruct (mem r (batch_rids s3 c n)) eqn:M; [discriminate|]. apply mem_nIn in M.
+    assert (Hnc : rid_ctx r <> c).
+    { intros Hc. apply M. apply Hbatch; [|assumption].
+      destruct (get r (reqs s)) eqn:G0; [eapply get_Some_in; eauto|]. apply Hkeys in G0. congruence. }
+    split; [assumption|]. rewrite <- X5; assumption. }
+  assert (Hctx_other : forall c', c' <> c -> get c' (ctxs s') = get c' (ctxs s)).
+  { intros c' Hc'. rewrite E7. destruct H36 as [->| ->].
+    - now rewrite get_set_neq.
+    - rewrite get_del_neq by assumption. now rewrite get_set_neq. }
+  assert (Hws' : wf (reqs s')) by (rewrite Cr, H31; now apply fold_del_wf).
+  unfold I_req. split; [|split].
+  - intros r q Hin. apply In_get in Hin; [|assumption]. destruct (Hget _ _ Hin) as (Hnc & G0).
+    apply get_In in G0. destruct (R1 _ _ G0) as (rc' & A1 & A2 & A3 & A4 & A5 & A6 & A7 & A8 & A9).
+    exists rc'. rewrite Hctx_other, E4, E5, E6 by assumption. rewrite get_del_neq by assumption.
+    repeat split; auto; lia.
+  - intros r x Hin.
+    assert (Hwp' : wf (resps s')) by (rewrite Cp, H32; now apply fold_del_wf).
+    apply In_get in Hin; [|assumption]. rewrite Cp, H32, get_fold_del in Hin by assumption.
+    destruct (mem r (batch_rids s3 c n)) eqn:M; [discriminate|]. apply mem_nIn in M.
+    apply get_In in Hin. destruct (R2 _ _ Hin) as (q & G & Hia).
+    assert (Hnc : rid_ctx r <> c).
+    { intros Hc. apply M. apply Hbatch; [eapply get_Some_in; eauto|assumption]. }
+    exists q. split; [|assumption].
+    rewrite Cr, H31, get_fold_del by assumption.
+    destruct (mem r (batch_rids s3 c n)) eqn:M2; [apply mem_In in M2; contradiction|].
+    rewrite X5 by assumption. exact G.
+  - intros c' rcx Gx. destruct (eqb_spec c' c) as [->|Hnc].
+    + (* the expired context itself, if it survives *)
+      assert (Ercx : rcx = rc1).
+      { rewrite E7 in Gx. destruct H36 as [E|E]; rewrite E in Gx.
+        - rewrite get_set_eq in Gx. congruence.
+        - rewrite get_del_eq in Gx by now apply wf_set. discriminate. }
+      subst rcx. rewrite E4. unfold has. rewrite get_del_eq by assumption. cbn [andb].
+      destruct (R3 _ _ Grc) as (B1 & _). rewrite X9, X10.
+      split; [assumption|]. split; [|split; [discriminate|intros _; exact X7]].
+      apply msum_zero. intros r q Hin. apply In_get in Hin; [|assumption].
+      destruct (Hget _ _ Hin) as (Hnc & _). unfold active_in.
+      destruct (eqb_spec (rid_ctx r) c); [contradiction|reflexivity].
+    + rewrite Hctx_other in Gx by assumption. rewrite E4.
+      assert (Eh : has c' (del c (expq_h s)) = has c' (expq_h s)) by (unfold has; now rewrite get_del_neq).
+      rewrite Eh.
+      assert (Em : msum (active_in c') (reqs s') = msum (active_in c') (reqs s)).
+      { rewrite Cr, H31. rewrite msum_fold_del_zero; [now apply X6|assumption|].
+        intros r Hr. apply In_batch_rids in Hr. destruct Hr as (_ & Hc & _).
+        unfold fget. destruct (get r (reqs s1)); [|reflexivity]. unfold active_in.
+        rewrite Hc. destruct (eqb_spec c c'); [congruence|reflexivity]. }
+      rewrite Em. apply (R3 _ _ Gx).
+Qed.
+
+(* ---- EndBlock: new batch ---- *)
+
+Lemma I_req_idle cfg s s' c rc :
+  Inv cfg s -> get c (ctxs s) = Some rc -> get c (expq_h s) = None ->
+  reqs s' = reqs s -> resps s' = resps s -> owner_of s' = owner_of s -> binds s' = binds s ->
+  (forall c', c' <> c -> get c' (ctxs s') = get c' (ctxs s)) ->
+  (forall c', c' <> c -> get c' (expq_h s') = get c' (expq_h s)) ->
+  (forall rc', get c (ctxs s') = Some rc' ->
+      0 <= c_bresp rc' <= c_breq rc'
+      /\ (if has c (expq_h s') then c_bdone rc' = false /\ c_breq rc' = c_bresp rc'
+          else c_bdone rc' = true)) ->
+  I_req s'.
+Proof.
+  intros Hinv Grc Gexp E1 E2 E3 E4 Hc He Hrc.
+  destruct (inv_req _ _ Hinv) as (R1 & R2 & R3).
+  assert (Hnoreq : forall r q, In (r, q) (reqs s) -> rid_ctx r <> c).
+  { intros r q Hin Ec. destruct (R1 _ _ Hin) as (rc' & _ & _ & A3 & _). rewrite Ec in A3. congruence. }
+  unfold I_req. rewrite E1, E2, E3, E4. split; [|split; [assumption|]].
+  - intros r q Hin. pose proof (Hnoreq _ _ Hin) as Hnc.
+    destruct (R1 _ _ Hin) as (rc' & A). exists rc'. rewrite Hc, He by assumption. exact A.
+  - intros c' rcx Gx. destruct (eqb_spec c' c) as [->|Hnc].
+    + destruct (Hrc _ Gx) as (B1 & B2). split; [assumption|].
+      assert (Ez : msum (active_in c) (reqs s) = 0).
+      { apply msum_zero. intros r q Hin. unfold active_in.
+        destruct (eqb_spec (rid_ctx r) c) as [Ec|]; [|reflexivity]. exfalso. eapply Hnoreq; eauto. }
+      rewrite Ez. destruct (has c (expq_h s')).
+      * destruct B2 as (B2 & B3). rewrite B2. cbn [andb negb].
+        repeat split; try lia; try discriminate.
+      * cbn [andb]. repeat split; try discriminate; auto.
+    + rewrite Hc in Gx by assumption.
+      assert (Eh : has c' (expq_h s') = has c' (expq_h s)) by (unfold has; now rewrite He).
+      rewrite Eh. apply (R3 _ _ Gx).
+Qed.
+
+Lemma I_req_new_one cfg s c :
+  wf_cfg cfg -> Inv cfg s -> In (height s, c) (newq s) -> height s < HEIGHT_BOUND ->
+  I_req (new_one cfg s c).
+Proof.
+  intros Hcfg Hinv Hdue Hh. destruct (due_new_ctx _ _ _ Hinv Hdue) as (rc & Grc & Gnew & Gexp).
+  destruct (inv_req _ _ Hinv) as (R1 & R2 & R3).
+  pose proof (inv_wf _ _ Hinv) as Hwf. assert (Hwr : wf (reqs s)) by apply Hwf.
+  assert (Hwc : wf (ctxs s)) by apply Hwf. assert (Hwe : wf (expq_h s)) by apply Hwf.
+  destruct (R3 _ _ Grc) as (B1 & B2 & B3 & B4).
+  assert (Hnexp : has c (expq_h s) = false) by (unfold has; now rewrite Gexp).
+  pose proof (B4 Hnexp) as Hbd.
+  unfold new_one, ctx_or_zero. rewrite Grc.
+  destruct (is_state rc Running && c_rep rc && (0 <? c_total rc) && (c_total rc <=? c_counter rc)).
+  { (* total reached: the context is removed *)
+    eapply (I_req_idle cfg s _ c rc); eauto; sproj; try reflexivity.
+    - intros c' Hc'. now rewrite get_del_neq.
+    - intros rc' G. rewrite get_del_eq in G by assumption. discriminate. }
+  destruct (is_state rc Running).
+  2:{ eapply (I_req_idle cfg s _ c rc); eauto; sproj; try reflexivity.
+      intros rc' G. rewrite Grc in G. injection G as <-. rewrite Hnexp. auto. }
+  set (el := filter_providers s rc (c_provs rc)).
+  destruct ((0 <? len el) && (c_thr rc <=? len el)).
+  2:{ (* skipped batch *)
+      unfold skip_batch. eapply (I_req_idle cfg s _ c rc); eauto; sproj; try reflexivity.
+      - intros c' Hc'. now rewrite get_set_neq.
+      - intros c' Hc'. now rewrite get_set_neq.
+      - intros rc' G. rewrite get_set_eq in G. injection G as <-.
+        unfold has. rewrite get_set_eq. cbn. repeat split; lia. }
+  assert (Hpaused : I_req (del_newq (on_paused s c rc) c (height s))).
+  { unfold on_paused. eapply (I_req_idle cfg s _ c rc); eauto;
+      destruct (c_mod rc =? 0); sproj; try reflexivity;
+      try (intros c' Hc'; now rewrite get_set_neq);
+      (intros rc' G; rewrite get_set_eq in G; injection G as <-; rewrite Hnexp; cbn; auto). }
+  assert (Hissue : forall sp, reqs sp = reqs s -> resps sp = resps s -> ctxs sp = ctxs s ->
+            expq_h sp = expq_h s -> owner_of sp = owner_of s -> binds sp = binds s ->
+            height sp = height s ->
+            I_req (del_newq (add_expq (initiate_requests sp c (map fst el)) c (height s + c_timeout rc)) c (height s))).
+  { intros sp P1 P2 P3 P4 P5 P6 P7.
+    unfold initiate_requests, ctx_or_zero. rewrite P3, Grc.
+    set (n := c_counter rc + 1). set (provs := map fst el).
+    set (s1 := issue_all sp c rc n 0 provs).
+    set (rc1 := setc_bthr (setc_breq (setc_bresp (setc_bdone (setc_counter rc n) false) 0) (len provs)) (c_thr rc)).
+    assert (Hnoreq : forall r, rid_ctx r = c -> get r (reqs sp) = None).
+    { intros r Hc. rewrite P1. eapply no_expiry_no_reqs; eauto. }
+    assert (Hwsp : wf (reqs sp)) by (rewrite P1; assumption).
+    assert (Hfresh : forall j, 0 <= j -> get (c, n, height sp, j) (reqs sp) = None).
+    { intros j _. now apply Hnoreq. }
+    pose proof (issue_all_frame sp c rc n 0 provs) as F. fold s1 in F. unfold same_but_reqs in F.
+    destruct F as (_ & _ & _ & F4 & _ & F6 & _ & _ & _ & F10 & _ & F12 & _ & _ & F15 & _).
+    destruct (inv_ctx _ _ Hinv c rc Grc) as ((Ht1 & _) & _).
+    sproj. unfold I_req. sproj. rewrite F4, F6, F10, F12, F15, P2, P3, P4, P5, P6.
+    split; [|split].
+    - intros r q Hin.
+      destruct (issue_all_reqs fee_active sp c rc n 0 provs Hwsp Hfresh) as (Hws1 & _ & _). fold s1 in Hws1.
+      apply In_get in Hin; [|assumption]. apply issue_all_get in Hin.
+      destruct Hin as [G0|(k & p & Hn & -> & ->)].
+      + rewrite P1 in G0. assert (Hnc : rid_ctx r <> c).
+        { intros Ec. rewrite <- P1 in G0. rewrite (Hnoreq r Ec) in G0. discriminate. }
+        apply get_In in G0. destruct (R1 _ _ G0) as (rc' & A). exists rc'.
+        rewrite !get_set_neq by assumption. exact A.
+      + exists rc1. cbn [rid_ctx rid_batch rid_index rid_height fst snd].
+        rewrite !get_set_eq. unfold new_req, fee_of. cbn [r_exp r_fee r_prov].
+        unfold rc1. cbn [c_counter c_breq c_svc c_super setc_bthr setc_breq setc_bresp setc_bdone setc_counter].
+        pose proof (nth_error_len _ _ _ Hn) as Hk.
+        assert (Hp : In p (map fst (filter_providers s rc (c_provs rc)))) by (eapply nth_error_In; eauto).
+        destruct (In_filter_providers _ _ _ _ Hp) as (b & Gb).
+        destruct (inv_index _ _ Hinv) as (I1 & _). apply get_In in Gb.
+        destruct (I1 _ _ Gb) as (_ & Go & _). cbn [fst snd] in Go.
+        split; [reflexivity|]. split; [reflexivity|]. split; [now rewrite P7|]. split.
+        { destruct (c_super rc); [lia|]. pose proof (C07_fee_ge_1 (pricing_of sp (c_svc rc, p)) (time sp)
+             (vol_of sp (c_cons rc) (c_svc rc) p)). lia. }
+        split; [lia|]. split; [lia|]. split; [unfold has; now rewrite Go|].
+        split; [apply has_get; apply In_get in Gb; [eauto|apply Hwf]|].
+        intros Hs. now rewrite Hs.
+    - intros r x Hin. destruct (R2 _ _ Hin) as (q & G & Hia). exists q. split; [|assumption].
+      destruct (issue_all_reqs fee_active sp c rc n 0 provs Hwsp Hfresh) as (_ & _ & Ho). fold s1 in Ho.
+      rewrite Ho, P1; [assumption|]. intros Ec. rewrite <- P1 in G. rewrite (Hnoreq r Ec) in G. discriminate.
+    - intros c' rcx Gx.
+      destruct (issue_all_reqs (active_in c') sp c rc n 0 provs Hwsp Hfresh) as (_ & Hs & _). fold s1 in Hs.
+      rewrite Hs, sum_new_active, P1.
+      rewrite get_set in Gx. destruct (eqb_spec c' c) as [->|Hnc].
+      + injection Gx as <-. rewrite eqb_refl. unfold has. rewrite get_set_eq.
+        unfold rc1. cbn [c_bresp c_breq c_bdone setc_bthr setc_breq setc_bresp setc_bdone setc_counter andb negb].
+        rewrite Hnexp in B2. cbn [andb] in B2. rewrite B2.
+        assert (0 <= len provs) by (unfold len; lia).
+        repeat split; try lia; try discriminate.
+      + destruct (eqb_spec c c'); [congruence|]. rewrite Z.add_0_r.
+        assert (Eh : has c' (set c (height s + c_timeout rc) (expq_h s)) = has c' (expq_h s))
+          by (unfold has; now rewrite get_set_neq).
+        rewrite Eh. apply (R3 _ _ Gx). }
+  destruct (c_super rc).
+  - apply Hissue; reflexivity.
+  - destruct (transfer (User (c_cons rc)) Escrow (sum_prices el) s) as [x|] eqn:Et.
+    + pose proof (transfer_frame _ _ _ _ _ Et) as Hf.
+      apply Hissue; sproj; rewrite Hf; reflexivity.
+    + exact Hpaused.
+Qed.
+
+Lemma I_req_tick s dt :
+  I_req s -> I_req (set_time (set_height s (height s + 1)) (time s + dt)).
+Proof. intros H. exact H. Qed.
+
+Lemma I_req_init h0 t0 f : I_req (init h0 t0 f).
+Proof.
+  unfold I_req, init. cbn [reqs resps ctxs]. split; [|split]; intros ? ? Hin; try contradiction.
+  discriminate.
+Qed.
